@@ -5,6 +5,7 @@ import (
 	"encoding/hex"
 	"fmt"
 	"log"
+	"sync"
 	"time"
 
 	"github.com/smartcontractkit/chainlink-common/pkg/services"
@@ -34,6 +35,10 @@ type coordinator struct {
 
 	minimumConfirmations int
 	performLockoutWindow time.Duration
+
+	// mu makes the read-then-write sequences on cache in Accept and
+	// checkEvents atomic with respect to each other
+	mu sync.Mutex
 }
 
 var _ types.Coordinator = (*coordinator)(nil)
@@ -61,6 +66,9 @@ func NewCoordinator(transmitEventProvider types.TransmitEventProvider, upkeepTyp
 }
 
 func (c *coordinator) Accept(reportedUpkeep common.ReportedUpkeep) bool {
+	c.mu.Lock()
+	defer c.mu.Unlock()
+
 	if v, ok := c.cache.Get(reportedUpkeep.WorkID); !ok {
 		c.cache.Set(reportedUpkeep.WorkID, record{
 			checkBlockNumber:      reportedUpkeep.Trigger.BlockNumber,
@@ -170,6 +178,11 @@ func (c *coordinator) checkEvents(ctx context.Context) error {
 	if err != nil {
 		return err
 	}
+
+	// an Accept interleaved between the cache read and write below could be
+	// overwritten by (or overwrite) the record of a processed event
+	c.mu.Lock()
+	defer c.mu.Unlock()
 
 	skipped := 0
 	for _, event := range events {
